@@ -74,6 +74,7 @@ class Listener(object):
         self.registered = False
         self.run = None
         self.bound = False
+        self.by_object = False
 
     def deliver(self, payload):
         self.run.on_event(self, payload)
@@ -119,6 +120,14 @@ class CtlRun(object):
         self.p_5xx = ch.pick([0, 1, 3], 'p5xx')
         self.p_percb = ch.pick([0, 2, 5], 'ppercb')
         self.allow_long = ch.chance(1, 40, 'long') and self.prop != 'C03'
+        # C03, rarely: more than a thousand commands queued behind the one in flight when the connection goes
+        self.big_queue = self.prop == 'C03' and ch.chance(1, 12, 'bigqueue')
+        if self.big_queue:
+            self.n_cmds = 1100 + ch.draw(300, 'bigq')
+            self.max_queue = 10 ** 6
+            self.p_percb = 0
+            sim.big_queue = True
+            sim.probe('queue-depth>=1000')
         self.n_events = 0
         self.n_listener_ops = 0
         self.cancels_left = 0
@@ -285,6 +294,10 @@ class CtlRun(object):
                 acts.append((1, 'when-disconnected', self.op_when_disconnected))
             return acts
         outstanding = sum(1 for c in self.cmds if c.observed and not c.done)
+        if self.big_queue:
+            if self.submitted < self.n_cmds:
+                return [(5, 'submit-burst', self.op_burst)]
+            return []
         if self.submitted < self.n_cmds and outstanding < self.max_queue:
             acts.append((5, 'submit', self.op_submit))
         if self.cancels_left > 0 and outstanding:
@@ -297,6 +310,14 @@ class CtlRun(object):
         if self.prop == 'C03' and len(self.wd) < 3:
             acts.append((1, 'when-disconnected', self.op_when_disconnected))
         return acts
+
+    def op_burst(self):
+        self.peer.hold = True
+        while self.submitted < self.n_cmds:
+            c = self.op_submit()
+            c.follow = 0
+        self.peer.hold = False
+        self.sim.boot_end = self.peer.reply_end[len(PREAMBLE_NULL) - 1]
 
     def workload_finished(self):
         if self.bootstrap['ok'] is False:
@@ -493,6 +514,9 @@ class CtlRun(object):
         l.run = self
         l._plain = lambda payload, l=l: self.on_event(l, payload)
         l.bound = ch.chance(1, 2, 'boundmethod')
+        l.by_object = ch.chance(1, 3, 'byobject')
+        if l.by_object:
+            sim.probe('listener-registered-by-event-object')
         if l.bound:
             sim.probe('listener-is-bound-method')
         first = not self.live.get(name)
@@ -507,7 +531,7 @@ class CtlRun(object):
             names = frozenset(n for n, v in self.live.items() if v)
             c = Cmd(len(self.cmds), 'setevents', 'SETEVENTS', wire=('setevents', names))
             self.cmds.append(c)
-        d = self.proto.add_event_listener(name, l.fn)
+        d = self.proto.add_event_listener(self.event_key(l), l.fn)
         if first:
             self.watch_setevents(c, d)
 
@@ -533,9 +557,13 @@ class CtlRun(object):
             names = frozenset(n for n, v in self.live.items() if v)
             c = Cmd(len(self.cmds), 'setevents', 'SETEVENTS', wire=('setevents', names))
             self.cmds.append(c)
-        d = self.proto.remove_event_listener(l.name, l.fn)
+        d = self.proto.remove_event_listener(self.event_key(l), l.fn)
         if last:
             self.watch_setevents(c, d)
+
+    def event_key(self, l):
+        # both documented spellings: the event's name, or the Event object from TorControlProtocol.valid_events
+        return self.proto.valid_events[l.name] if l.by_object else l.name
 
     def op_event(self):
         ch, sim = self.ch, self.sim
@@ -698,7 +726,14 @@ class CtlRun(object):
         rec['submit'] = self.ch.weighted([3, 2, 1], 'wdsubmit')
         self.wd.append(rec)
         self.sim.probe('when-disconnected-' + rec['when'])
-        d = self.proto.when_disconnected()
+        d = None
+        if not self.cut_done and self.ch.chance(1, 3, 'legacyobserver'):
+            # the deprecated spelling: callbacks on the on_disconnect Deferred
+            d = self.proto.on_disconnect
+            if d is not None:
+                self.sim.probe('on-disconnect-legacy-observer')
+        if d is None:
+            d = self.proto.when_disconnected()
 
         def fired(x, rec=rec):
             rec['fired'] += 1
@@ -864,6 +899,12 @@ def variants(base_sim, params):
     """C03: cut the connection at every byte offset of the server->client stream, cleanly and uncleanly"""
     if base_sim.prop != 'C03' or params.get('cut') is not None:
         return []
+    if getattr(base_sim, 'big_queue', False):
+        # the queue is what matters here, not the offset: lose the connection inside the first workload reply
+        off = getattr(base_sim, 'boot_end', None)
+        if off is None:
+            return []
+        return [{'cut': (off + 1, False)}, {'cut': (off + 1, True)}, {'cut': (off + 9, True)}]
     total = base_sim.total_s2c
     stride = params.get('cut_stride', 1)
     out = []
